@@ -35,7 +35,7 @@ fn main() {
                 ingest::run_walk(p(2), p(3) as usize, p(4) as usize, p(5), p(6) as usize, &args[7]).await
             }
             "pool-stress" => poolstress::run(args[2].parse().unwrap(), args[3].parse().unwrap(), &args[4]).await,
-            "sub-race" => subrace::run(args[2].parse().unwrap(), args[3].parse().unwrap(), args[4] == "1", &args[5]).await,
+            "sub-race" => subrace::run(args[2].parse().unwrap(), args[3].parse().unwrap(), args[4].parse().unwrap(), &args[5]).await,
             "updates-walk" => updwalk::run(args[2].parse().unwrap(), args[3].parse().unwrap(), args[4].parse().unwrap(), &args[5]).await,
             "matcher-walk" => matchwalk::run(args[2].parse().unwrap(), &args[3], args[4].parse().unwrap(), &args[5]).await,
             "sub-life" => sublife::run(args[2].parse().unwrap(), &args[3], args[4].parse().unwrap(), &args[5]).await,
